@@ -427,7 +427,7 @@ impl<B: AsRef<[usize]> + BitLength, C: AsRef<[BlockCounters]>, I: AsRef<[usize]>
                 return *s.get_unchecked(rank % Self::ONES_PER_INVENTORY) as usize + inventory_left;
             }
             _ => {
-                return *subinv_ref.get_unchecked(rank % Self::ONES_PER_INVENTORY);
+                return *subinv_ref.get_unchecked(subinv_pos + rank % Self::ONES_PER_INVENTORY);
             }
         }
 
